@@ -49,6 +49,7 @@ struct ScriptedReader<'a> {
     fault_kind: io::ErrorKind,
     fallback: usize,
     wants: Vec<usize>,
+    gots: Vec<usize>,
 }
 
 impl<'a> Read for ScriptedReader<'a> {
@@ -56,10 +57,12 @@ impl<'a> Read for ScriptedReader<'a> {
         self.calls += 1;
         self.wants.push(buf.len());
         if self.calls == self.fault_at {
+            self.gots.push(0);
             return Err(io::Error::new(self.fault_kind, "injected-read"));
         }
         let remaining = self.data.len() - self.at;
         if remaining == 0 || buf.is_empty() {
+            self.gots.push(0);
             return Ok(0);
         }
         let planned = match self.reads.get(self.calls - 1) {
@@ -69,6 +72,7 @@ impl<'a> Read for ScriptedReader<'a> {
         let n = planned.min(buf.len()).min(remaining);
         buf[..n].copy_from_slice(&self.data[self.at..self.at + n]);
         self.at += n;
+        self.gots.push(n);
         Ok(n)
     }
 }
@@ -241,6 +245,7 @@ fn run_one(v: &Value, cache: &mut std::collections::HashMap<String, Searcher>) -
         },
         fallback: v.get("fallback").and_then(|f| f.as_u64()).unwrap_or(0) as usize,
         wants: vec![],
+        gots: vec![],
     };
     let pattern = v.get("pattern").and_then(|p| p.as_str());
     let res = match pattern {
@@ -284,7 +289,7 @@ fn run_one(v: &Value, cache: &mut std::collections::HashMap<String, Searcher>) -
             (r.to_string(), m)
         }
     };
-    json!({"out": sink.out, "result": result, "err": err, "nreads": rdr.calls, "wants": rdr.wants,
+    json!({"out": sink.out, "result": result, "err": err, "nreads": rdr.calls, "wants": rdr.wants, "gots": rdr.gots,
            "bytes_ok": sink.bytes_ok, "strat": strat, "reused": reused})
 }
 
